@@ -478,7 +478,7 @@ def _fam(tier, seed):
 
 
 @harness(props=["C01", "C02", "C03", "C04", "C05", "C08"], strength="B", family=_fam,
-         bound="30 concrete request/response descriptions built from the real parameter / DOP / diag-coded-type classes "
+         bound="42 concrete request/response descriptions built from the real parameter / DOP / diag-coded-type classes "
          "(constants, defaults, reserved bits, low-high and non-aligned values, linear compu method, request echoes, "
          "MIN-MAX-LENGTH types with the three terminations, PHYS-CONST, SYSTEM, structures with and without BYTE-SIZE, end-of-PDU, static and dynamic-length fields, LEADING-LENGTH types, DTC DOP, multiplexer, table key/struct, PARAM-LENGTH-INFO types with their length key); per description every value is "
          "symbolic",
@@ -690,7 +690,7 @@ def _nrc_service():
 @harness(props=["C17", "C06"], strength="B",
          family=lambda t, s: [{"desc": k, "phase": ph} for k in DESCRIPTIONS for ph in ("encode", "decode")] +
          [{"desc": "nrc-const-service", "phase": "decode"}],
-         bound="the 30 concrete descriptions plus one service with two NRC-CONST negative responses; values and "
+         bound="the 42 concrete descriptions plus one service with two NRC-CONST negative responses; values and "
          "messages symbolic",
          functions=FUNCTIONS + [DiagService.decode_message], covers=["strict-success"],
          assumes=["A-bitstruct", "A-lib"], limits={"max_paths": 40000, "task_timeout": 1500, "sym_for_unroll": 12}, use_contracts=["bcd"],
